@@ -31,13 +31,23 @@ pub fn layout() -> impl Strategy<Value = Layout> {
             1 => 8000usize..9000,
         ],
         prop_oneof![Just(PadPos::Before), Just(PadPos::Inside), Just(PadPos::After)],
+        proptest::option::weighted(
+            0.35,
+            (
+                prop_oneof![Just(1024usize), Just(4096), Just(8192), Just(16384), Just(32768), Just(65536)],
+                -2i32..=1,
+                any::<u16>(),
+            ),
+        ),
     )
-        .prop_map(|(ws, key_seed, escapes, pad_to, pad_pos)| Layout {
+        .prop_map(|(ws, key_seed, escapes, pad_to, pad_pos, align)| Layout {
             ws,
             key_seed,
-            escapes,
-            pad_to,
+            // an aligned character must stay raw
+            escapes: if align.is_some() { Escapes::None } else { escapes },
+            pad_to: if align.is_some() { 0 } else { pad_to },
             pad_pos,
+            align_non_ascii: align,
         })
 }
 
@@ -60,10 +70,12 @@ pub fn big_config(n: usize, picks: &[u16]) -> ConfigSpec {
         }
         targets.push(t);
     }
-    ConfigSpec {
+    let mut c = ConfigSpec {
         targets,
         ..Default::default()
-    }
+    };
+    c.sequences.insert("größe".into(), vec!["build".into(), "prüfen".into()]);
+    c
 }
 
 pub fn strategy() -> impl Strategy<Value = Case> {
@@ -158,6 +170,12 @@ pub fn check(case: &Case, w: usize) -> CheckResult {
         if l.key_seed != 0 {
             info = info.class("shuffled-keys");
         }
+        if let Some((b, d, _)) = l.align_non_ascii {
+            if d == 0 || d == -1 {
+                info = info.class("multibyte-char-straddles-boundary");
+            }
+            let _ = b;
+        }
     }
     info.nontrivial = nontrivial;
     info = info.class_if(case.config.targets.len() >= 100, "targets>=100");
@@ -166,7 +184,7 @@ pub fn check(case: &Case, w: usize) -> CheckResult {
 
 pub fn run(ctx: &mut Ctx) {
     ctx.rule = "a valid configuration value (small generated configs with nesting/uses/ignores/sequences, or 20-300 targets) x 4-8 serialisations by the harness's own writer: compact, pretty, \
-random inter-token whitespace, shuffled key order in every object, \\uXXXX escapes, whitespace padding before/inside/after the document up to 4000, 8191-8193, 16 KiB, 64 KiB, 200 KiB. \
+random inter-token whitespace, shuffled key order in every object, \\uXXXX escapes, whitespace padding before/inside/after the document up to 4000, 8191-8193, 16 KiB, 64 KiB, 200 KiB, and alignment of a non-ASCII character so that it ends before / straddles / starts at a multiple of 1-64 KiB. \
 oracle (metamorphic): the compact form is accepted, and every serialisation yields JSON-equal stdout (modulo timestamp) and equal exit status for `config show`, `target show -g`, \
 `analyze --target-groups`. non-trivial = some serialisation is larger than 8192 bytes and its first 8192 bytes are not a complete document; distinct by SHA-256"
         .to_string();
